@@ -218,5 +218,75 @@ func TestVerifC13(t *testing.T) {
 		}
 		run(id, script)
 	}
+	// ---- concurrent subscribes: whatever the interleaving inside Subscribe, at most one stays active
+	rounds := vEnvInt("VERIF_N", 150) / 3
+	for round := 0; round < rounds; round++ {
+		group := fmt.Sprintf("race%d", round)
+		k := 3 + r.intn(5)
+		type res struct {
+			sub    *subscription
+			cancel context.CancelFunc
+			cons   int
+			epoch  int
+		}
+		results := make([]res, k)
+		start := make(chan struct{})
+		done := make(chan int, k)
+		base := vC13SubscriberCount(p)
+		for i := 0; i < k; i++ {
+			i := i
+			ep := 5 + r.intn(2)
+			go func() {
+				ctx, cancel := context.WithCancel(context.Background())
+				<-start
+				sub, st := p.Subscribe(ctx, &client.SubscribeRequest{Stream: p.Stream, Partition: p.Id, StartPosition: client.StartPosition_NEW_ONLY,
+					Consumer: &client.Consumer{GroupId: group, ConsumerId: fmt.Sprintf("c%d", i), GroupEpoch: uint64(ep)}})
+				if st != nil {
+					cancel()
+					results[i] = res{cons: i, epoch: ep}
+				} else {
+					results[i] = res{sub: sub, cancel: cancel, cons: i, epoch: ep}
+				}
+				done <- i
+			}()
+		}
+		close(start)
+		for i := 0; i < k; i++ {
+			<-done
+		}
+		active, accepted := 0, 0
+		var desc []string
+		for _, x := range results {
+			if x.sub != nil {
+				accepted++
+				closed := vC13IsClosed(x.sub)
+				if !closed {
+					active++
+				}
+				desc = append(desc, fmt.Sprintf("c%d/e%d closed=%v", x.cons, x.epoch, closed))
+			}
+		}
+		stats["race/rounds"]++
+		stats[fmt.Sprintf("race/accepted=%d", accepted)]++
+		if active > 1 {
+			out.emit(vM{"k": "violation", "sig": "two-active-concurrent", "what": fmt.Sprintf("%d concurrent group subscribes: %d subscriptions left active: %v", k, active, desc),
+				"case": vM{"k": "race", "k_subscribers": k}})
+		}
+		// clean up: end every loop and wait for them
+		for _, x := range results {
+			if x.sub != nil {
+				x.cancel()
+				select {
+				case <-x.sub.Errors():
+				case <-x.sub.Closed():
+				case <-time.After(2 * time.Second):
+				}
+			}
+		}
+		deadline := time.Now().Add(3 * time.Second)
+		for vC13SubscriberCount(p) != base && time.Now().Before(deadline) {
+			time.Sleep(200 * time.Microsecond)
+		}
+	}
 	out.emit(vM{"k": "stat", "dist": stats})
 }
